@@ -13,7 +13,7 @@ from . import ipgen, lines as L, secrets as S
 
 BENIGN_EXTRA = ["GigabitEthernet0/1", "vlan", "10", "mtu", "1500", "Te1/0/2", "ge-0/0/0.0", "!", "#", "{", "}", "exit-address-family",
                 "255", "0/0", "access-list", "101", "(config)", "rtr01", "=>", "Po1", "unit", "0;"]
-WORDS = ["zurich", "gotham", "kiwi", "intentionet", "seattle", "northwest"]
+WORDS = ["zurich", "gotham", "kiwi", "intentionet", "seattle", "northwest", "north", "sea"]
 ASNS = ["65000", "64999", "4200000123", "12345", "70000", "65535"]
 
 FEATURES = ["pwd", "ip", "words", "asn"]
